@@ -27,6 +27,7 @@ ENGINES = [
     {"name": "Emission.tla", "path": "/verif/spec/Emission.tla", "serves_properties": ["C05"], "kind_free_text": "PyClone genotype enumeration and exact rational VAFs"},
     {"name": "MoveRel.tla", "path": "/verif/spec/MoveRel.tla", "serves_properties": ["C04", "C07"], "kind_free_text": "the tree moves as relations on abstract forests (candidate sets of the data-point and prune-regraft moves, block structure of the subtree move); Moves.tla puts the weights on them"},
     {"name": "TraceMoves.tla", "path": "/verif/spec/TraceMoves.tla", "serves_properties": ["C04", "C07"], "kind_free_text": "trace validation of recorded sampler steps of real chains (6-8 data points) against MoveRel with the chain's current tree carried along; total verdicts naming the failing clause"},
+    {"name": "TraceStore.tla", "path": "/verif/spec/TraceStore.tla", "serves_properties": ["C20", "C11"], "kind_free_text": "the run output re-written over an older run: truncate-on-open, appends, kill, exception unwinding the writer, companion files, tmp+rename with checkpoints, reader memo; NeverPartial / NeverStale"},
     {"name": "LossProb.tla", "path": "/verif/spec/LossProb.tla", "serves_properties": ["C05", "C17", "C18"], "kind_free_text": "cluster outlier/loss prior: option resolution of run(), cluster-table column, truncal cluster, lost-cluster test as the exact law of distinct chromosomes, prior terms"},
     {"name": "Chains.tla", "path": "/verif/spec/Chains.tla", "serves_properties": ["C18"], "kind_free_text": "multi-chain scheduler: spawned streams, interleavings, completion orders"},
     {"name": "TraceFile.tla", "path": "/verif/spec/TraceFile.tla", "serves_properties": ["C20"], "kind_free_text": "streamed single write with crash after any prefix; reader all-or-error"},
